@@ -164,6 +164,10 @@ func walkMessage(m protoreflect.Message, path []*validate.FieldPathElement, out 
 		rules := fieldRules(fd)
 		p := append(path[:len(path):len(path)], elem(fd))
 		set := m.Has(fd)
+		if rules != nil && rules.GetIgnore() == validate.Ignore_IGNORE_ALWAYS {
+			// "Always ignore rules, including the `required` rule", and the rules of the value's own fields
+			continue
+		}
 		if rules != nil {
 			if rules.GetRequired() && !set {
 				add(out, p, "required", "value is required")
